@@ -484,11 +484,40 @@ Definition tsv_flat
    filtered, else unchanged; uuid4 is an oracle value [rnd]), every other key
    (here: the sample name) unchanged; the source's logs / tables are stored
    (with the prefix) exactly when the flag is set. *)
-(* logs and tables: hw.store_log(f"{meta_prefix}{log}", ds.logs[log]) for
-   every log of the source when the flag is set (tables alike).  A text is a
-   list of lines (tables: rows); write_text appends to an existing name, so
-   what a name holds is the concatenation of what was stored under it.  The
-   prefixing of names is the function [pre]. *)
+(* logs: hw.store_log(f"{meta_prefix}{log}", ds.logs[log]) for every log of the
+   source when the flag is set.  RTDCWriter.write_text (mode "append"): a line
+   is its UTF-8 bytes; a new dataset gets the fixed width
+   max(100, longest line of this call) and holds the lines cut to that width;
+   an existing dataset is extended by the lines cut to ITS width (so later,
+   longer lines are truncated: C01's finding).  The prefixing of names is the
+   function [pre]; [f0] is what the file holds before (the export's own log).
+   Tables: hw.store_table creates one dataset per table (no width): a table
+   is its list of rows, kept in [text_calls]/[text_content]. *)
+Definition line := list Z.
+Definition width_of (lines : list line) : Z :=
+  fold_right (fun l w => Z.max (len l) w) 100 lines.
+Definition fit (w : Z) (l : line) : line := firstn (Z.to_nat w) l.
+Definition tfile := list (Z * (Z * list line)).     (* name, (width, lines) *)
+
+Fixpoint write_text (f : tfile) (name : Z) (lines : list line) : tfile :=
+  match f with
+  | [] => [(name, (width_of lines, map (fit (width_of lines)) lines))]
+  | (n, (w, old)) :: t =>
+      if n =? name then (n, (w, old ++ map (fit w) lines)) :: t
+      else (n, (w, old)) :: write_text t name lines
+  end.
+
+Fixpoint text_lookup (f : tfile) (name : Z) : list line :=
+  match f with
+  | [] => []
+  | (n, (_, ls)) :: t => if n =? name then ls else text_lookup t name
+  end.
+
+Definition store_logs (flag : bool) (pre : Z -> Z) (src : list (Z * list line))
+           (f0 : tfile) : tfile :=
+  if flag then fold_left (fun f nl => write_text f (pre (fst nl)) (snd nl)) src f0
+  else f0.
+
 Definition text := (Z * list Z)%type.
 Definition text_calls (flag : bool) (pre : Z -> Z) (src : list text) : list text :=
   if flag then map (fun nl => (pre (fst nl), snd nl)) src else [].
@@ -499,21 +528,21 @@ Record smeta := mkSmeta {
   sm_runid : option Z;        (* config["experiment"]["run identifier"] *)
   sm_hashid : option Z;       (* md5(time_date_setup identifier), if defined *)
   sm_sample : Z;
-  sm_logs : list text;        (* the (non-empty) logs: name, lines *)
+  sm_logs : list (Z * list line);   (* the (non-empty) logs: name, lines *)
   sm_tables : list text }.    (* the tables: name, rows *)
 
 Record ometa := mkOmeta {
   om_runid : option (option Z * option Z);   (* (identifier, random suffix) *)
   om_sample : Z;
   om_count : Z;
-  om_logs : list text;        (* store_log calls for source logs *)
+  om_logs : tfile;            (* the logs group after the export *)
   om_tables : list text }.
 
 (* RTDCBase.get_measurement_identifier *)
 Definition meas_id (sm : smeta) : option Z :=
   match sm_runid sm with Some r => Some r | None => sm_hashid sm end.
 
-Definition export_meta (rnd : Z) (pre : Z -> Z) (sm : smeta)
+Definition export_meta (rnd : Z) (pre : Z -> Z) (f0 : tfile) (sm : smeta)
            (filtered logs tables : bool) (cnt : Z) : ometa :=
   {| om_runid := if filtered then Some (meas_id sm, Some rnd)
                  else match sm_runid sm with
@@ -522,19 +551,19 @@ Definition export_meta (rnd : Z) (pre : Z -> Z) (sm : smeta)
                       end;
      om_sample := sm_sample sm;
      om_count := cnt;
-     om_logs := text_calls logs pre (sm_logs sm);
+     om_logs := store_logs logs pre (sm_logs sm) f0;
      om_tables := text_calls tables pre (sm_tables sm) |}.
 
 Definition req_features (features : option (list Z)) (innate : list Z) : list Z :=
   match features with None => innate | Some l => l end.
 
 Definition export_full (A : Type) (d z : A) (enum : Z -> A) (rnd cfg : Z)
-           (pre : Z -> Z)
+           (pre : Z -> Z) (f0 : tfile)
            (ds : dset A) (innate : list Z) (sm : smeta) (filt : list bool)
            (filtered skip logs tables basins : bool)
            (features : option (list Z)) : res (list (call A) * ometa) :=
   bind (export A d z enum cfg ds filt filtered skip (req_features features innate))
-       (fun r => Ok (fst r, export_meta rnd pre sm filtered logs tables (snd r))).
+       (fun r => Ok (fst r, export_meta rnd pre f0 sm filtered logs tables (snd r))).
 
 (* number of events every stored array holds when the length check is on *)
 Definition spec_count (filtered : bool) (filt : list bool) (lim : option Z) : Z :=
@@ -580,12 +609,16 @@ Definition rectify_chcount (src : option Z) (nfl : Z) : option Z :=
 Definition enc_texts (calls : list text) (pre : Z -> Z) (src : list text) : list Z :=
   flat_map (fun nl => let c := text_content calls (pre (fst nl)) in len c :: c) src.
 
+Definition enc_logs (f : tfile) (pre : Z -> Z) (src : list (Z * list line)) : list Z :=
+  flat_map (fun nl => let ls := text_lookup f (pre (fst nl)) in
+                      len ls :: flat_map (fun l => len l :: l) ls) src.
+
 Definition export_full_flat
   (case : ((Z * Z * Z * Z) * list (Z * Z * list (Z * Z * Z * Z * list Z))
            * list bool * (Z * Z) * list Z)
           * (Z * list Z) * (Z * Z * Z)
           * (list Z * list Z * Z)
-          * (list (Z * list Z) * list (Z * list Z))
+          * (list (Z * list (list Z)) * list (Z * list Z))
           * (list Z * list Z)) : list Z :=
   let '(ec, (given, innate), (logs, tables, basins), (rid, hid, smp),
         (lgs, tbs), (chsrc, flnames)) := case in
@@ -605,7 +638,8 @@ Definition export_full_flat
        | Err _ => -1
        end;
        if export_guard Z ds (zb filtered) (zb skip) reqf then 1 else 0] in
-  match export_full Z (-7) 0 (fun k => k) 7 cfg pre ds innate sm filt (zb filtered)
+  let f0 : tfile := write_text [] (-1) [[100; 99]] in   (* the export's own log *)
+  match export_full Z (-7) 0 (fun k => k) 7 cfg pre f0 ds innate sm filt (zb filtered)
                     (zb skip) (zb logs) (zb tables) (zb basins) feats with
   | Err c => [1; c] ++ tail
   | Ok (calls, om) =>
@@ -619,8 +653,15 @@ Definition export_full_flat
       | None => [0]
       | Some (i, s) => [1] ++ oz i ++ [match s with None => 0 | Some _ => 1 end]
       end
-      ++ [om_sample om; len (om_logs om); len (om_tables om)]
-      ++ enc_texts (om_logs om) pre lgs ++ enc_texts (om_tables om) pre tbs
+      ++ [om_sample om; len (om_logs om) - 1; len (om_tables om)]
+      ++ enc_logs (om_logs om) pre lgs ++ enc_texts (om_tables om) pre tbs
       ++ oz (rectify_chcount (o2 chsrc) (count_fl flnames calls))
       ++ tail
   end.
+
+(* write_image_grayscale stores image and image_bg as uint8 whatever the
+   source holds: HDF5 converts by truncating towards zero and saturating.
+   A pixel is given in eighths (value = k / 8).  [finding
+   C02-image-cast-uint8] *)
+Definition sat8 (k : Z) : Z := Z.max 0 (Z.min 255 (Z.quot k 8)).
+Definition cast_flat (pixels : list Z) : list Z := map sat8 pixels.
